@@ -141,7 +141,13 @@ func runC12(c *Ctx) {
 		// instrument
 		var local []*crashImage
 		snap := func(phase string) {
-			img := &crashImage{Scenario: sc.name, Phase: phase, Dir: c.TempDir(fmt.Sprintf("img_%d_%d", si, len(local)))}
+			// every second image lives in a work_dir whose name has characters that are special to glob patterns and
+			// regular expressions: a legal directory name, which the start-up sweep must treat as a plain path
+			odd := ""
+			if len(local)%2 == 1 {
+				odd = "[tenant-a]+(x)"
+			}
+			img := &crashImage{Scenario: sc.name, Phase: phase, Dir: c.TempDir(fmt.Sprintf("img_%d_%d%s", si, len(local), odd))}
 			copyTree(w.Dir, img.Dir)
 			local = append(local, img)
 		}
